@@ -141,7 +141,7 @@ def run_case(case):
 
         for _c in range(case['configs']):
             avx = case.get('avx512', False)
-            choices = ['whfast512'] if avx else ['leapfrog', 'whfast', 'whfast', 'whfast', 'saba', 'saba', 'eos', 'eos', 'janus', 'mercurius', 'trace', 'ias15', 'ias15fixed', 'bs', 'ode']
+            choices = ['whfast512'] if avx else ['leapfrog', 'whfast', 'whfast', 'whfast', 'saba', 'saba', 'eos', 'eos', 'janus', 'mercurius', 'trace', 'traceperi', 'ias15', 'ias15fixed', 'bs', 'ode']
             integ = rr.choice(choices)
             if avx and (tp or G != 1.0 or N > 9 or direction < 0):
                 break              # WHFast512: G=1, no test particles, forward only (documented)
@@ -172,6 +172,57 @@ def run_case(case):
                 if res[-1][1] > 10 * res[0][1] + 1e-12:
                     add('converge:error-grows-when-tolerance-tightened:%s' % integ, '%s: errors %r' % (desc0, [(t_, '%.2e' % e_) for t_, e_, _o in res]))
                 cells.add(json.dumps([integ, 'tolerance']))
+                continue
+            if integ == 'traceperi':
+                # TRACE with an eccentric inner planet and steps that are a sizeable fraction of its period: the pericentre switch
+                # hands whole steps (FULL_BS, FULL_IAS15) or the Kepler part (PARTIAL_BS) to an accurate inner integrator.  The
+                # result must stay close to the true solution (accuracy class), and FULL_BS / FULL_IAS15 - the same algorithm with
+                # two different accurate inner integrators - must agree with each other far more closely than that.
+                counters['trace_peri_runs'] = counters.get('trace_peri_runs', 0) + 1
+                ecc = rr.uniform(0.3, 0.9)
+                mpl = 10 ** rr.uniform(-6, -3)
+                sysd2 = dict(kind='planets', mstar=mstar, planets=[dict(m=mpl * mstar, a=1.0, e=ecc, inc=0.0, Omega=0.0, omega=rr.uniform(0, 6.28), f=rr.uniform(0, 6.28))])
+                if rr.random() < 0.5:
+                    sysd2['planets'].append(dict(m=10 ** rr.uniform(-6, -3.5) * mstar, a=rr.uniform(4.0, 6.0), e=rr.uniform(0, 0.1), inc=rr.uniform(0, 0.1), Omega=rr.uniform(0, 6), omega=rr.uniform(0, 6), f=rr.uniform(0, 6)))
+                b2 = rebound.Simulation()
+                b2.G = G
+                gen.add_system(b2, sysd2)
+                P2 = 2 * math.pi * math.sqrt(1.0 / (G * mstar))
+                kk = rr.choice([2.7, 4.3, 9.1, 21.0])
+                dt2 = direction * P2 / kk
+                ns2 = int(math.ceil(2.2 * kk))
+                m2 = [p.m for p in b2.particles]
+                y2 = [[p.x, p.y, p.z, p.vx, p.vy, p.vz] for p in b2.particles]
+                # the deciding bounds here are 0.08 (class) and 1e-5 (differential, needs no reference): a reference good to 1e-7 suffices
+                refA, _z, _e = R.integrate(m2, y2, G, ns2 * dt2, P2 / 60)
+                refB, _z, _e = R.integrate(m2, y2, G, ns2 * dt2, P2 / 120)
+                if float(np.max(np.abs(refA[:, :3] - refB[:, :3]))) > 1e-7:
+                    counters['reference_rejected'] += 1
+                    continue
+                rx = refB[:, :3].astype(float)
+                outp = {}
+                for mode in ('FULL_BS', 'FULL_IAS15', 'PARTIAL_BS'):
+                    s2 = rebound.Simulation()
+                    s2.G = G
+                    gen.add_system(s2, sysd2)
+                    s2.integrator = 'trace'
+                    s2.ri_trace.peri_mode = mode
+                    s2.dt = dt2
+                    for _k in range(ns2):
+                        s2.steps(1)
+                    s2.synchronize()
+                    outp[mode] = [(p.x, p.y, p.z) for p in s2.particles]
+                    e2 = max(math.dist(a_, b_) for a_, b_ in zip(outp[mode], rx))
+                    key = 'max_trace_peri_error_x1e6:%s' % mode
+                    counters[key] = max(counters.get(key, 0), int(e2 * 1e6))
+                    # between pericentres the scheme is the second-order Wisdom-Holman map with steps up to P/2.7: a generous class bound
+                    if e2 > 0.08:
+                        add('converge:accuracy-class:trace:pericentre-switching:%s%s' % (mode, ':backward' if direction < 0 else ''), 'G=%g mstar=%g dir=%+d: e=%.2f m=%.1e dt=P/%.1f %d steps %s: position error %.3e (units of a)' % (G, mstar, direction, ecc, mpl, kk, ns2, mode, e2))
+                dd = max(math.dist(a_, b_) for a_, b_ in zip(outp['FULL_BS'], outp['FULL_IAS15']))
+                counters['max_trace_full_bs_vs_full_ias15_x1e9'] = max(counters.get('max_trace_full_bs_vs_full_ias15_x1e9', 0), int(dd * 1e9))
+                if dd > 1e-5:
+                    add('converge:trace:full-bs-and-full-ias15-disagree', 'e=%.2f m=%.1e dt=P/%.1f %d steps G=%g mstar=%g dir=%d: FULL_BS and FULL_IAS15 end %.3e apart' % (ecc, mpl, kk, ns2, G, mstar, direction, dd))
+                cells.add(json.dumps(['traceperi', kk, direction]))
                 continue
             if integ == 'ode':
                 counters['ode_runs'] += 1
